@@ -403,13 +403,48 @@ def gen_column(rng, style):
         n = rng.randint(2, 30)
         cells = [rng.choice([round(rng.uniform(-3, 120), 2), float(rng.choice(GRID)), rng.choice(GRID) / 100, 0.0, 1e300,
                              -2.5]) for _ in range(n)]
+    elif style == "int64_huge":      # epoch milliseconds, byte counts, ids: 1e10 .. 1e15, both signs
+        n = rng.randint(3, 20)
+        k = rng.random()
+        if k < 0.4:
+            base = rng.randint(1_500_000_000_000, 1_800_000_000_000)
+            step = rng.choice([86_400_000, 3_600_000, 1000, 1])
+            cells = [base + i * step for i in range(n)]
+        elif k < 0.8:
+            cells = [rng.choice([1, -1]) * rng.randint(10 ** rng.randint(10, 14), 10 ** 15) for _ in range(n)]
+        else:
+            cells = [rng.choice([3_037_000_499, 3_037_000_500, 3_037_000_501, -3_037_000_500, 4_294_967_296,
+                                 rng.randint(3 * 10 ** 9, 10 ** 11)]) for _ in range(n)]
+    elif style == "int32_big":       # around and above sqrt(2^31) = 46340.95
+        n = rng.randint(3, 20)
+        cells = [rng.choice([46340, 46341, 46342, -46341, 65536, rng.randint(46000, 47000),
+                             rng.randint(50_000, 2_000_000_000), -rng.randint(50_000, 2_000_000_000)]) for _ in range(n)]
+    elif style == "uint_big":
+        n = rng.randint(3, 20)
+        cells = [rng.choice([65535, 65536, 4_294_967_295, rng.randint(70_000, 4_000_000_000), rng.randint(0, 50)])
+                 for _ in range(n)]
+    elif style == "int_mixed":       # small and huge values in one integer column
+        n = rng.randint(4, 24)
+        cells = [rng.choice([rng.randint(-20, 120), rng.choice(GRID), 0, rng.randint(10 ** 10, 10 ** 15),
+                             -rng.randint(10 ** 10, 10 ** 13), rng.randint(1_600_000_000_000, 1_800_000_000_000)])
+                 for _ in range(n)]
+    elif style == "float32":         # values exactly representable in float32
+        n = rng.randint(3, 20)
+        cells = [rng.choice([rng.randint(-400, 4000) / 4.0, float(rng.choice(GRID)), 0.0, 16777216.0, -0.5, 17179869184.0])
+                 for _ in range(n)]
     else:
         raise ValueError(style)
     return cells
 
 
-STYLES = [("mixed", 30), ("prob", 10), ("counts", 10), ("constant", 6), ("majority", 14), ("nanshare", 12), ("tiny", 6),
-          ("ints", 6), ("floats", 6)]
+# numpy dtype a typed style is stored with (None: pandas' default for Python ints / floats)
+STYLE_DTYPES = {"int64_huge": ["int64"], "int32_big": ["int32"], "uint_big": ["uint32", "uint64"],
+                "int_mixed": ["int64", None], "float32": ["float32"], "ints": [None, "int64", "int32", "int16"],
+                "floats": [None, "float64"]}
+
+
+STYLES = [("mixed", 28), ("prob", 9), ("counts", 9), ("constant", 6), ("majority", 13), ("nanshare", 11), ("tiny", 5),
+          ("ints", 5), ("floats", 4), ("int64_huge", 6), ("int32_big", 4), ("uint_big", 2), ("int_mixed", 4), ("float32", 2)]
 
 
 def _pick_style(rng):
@@ -433,6 +468,13 @@ def gen_case(rng, big=False):
         n = min(n, 12)
     cols = [c[:n] for c in cols]
     case = {"preset": preset, "columns": [[nm, c] for nm, c in zip(names, cols)], "styles": styles}
+    dtypes = {}
+    for nm, s in zip(names, styles):
+        dt = rng.choice(STYLE_DTYPES[s]) if s in STYLE_DTYPES else None
+        if dt:
+            dtypes[nm] = dt
+    if dtypes:
+        case["dtypes"] = dtypes
     if rng.random() < 0.5:
         case["extra"] = [["label", [rng.choice(["a", "b", ""]) for _ in range(n)]]]
     return case
@@ -663,7 +705,7 @@ def _check(run, replay):
             run.violation("counterexample", fam, case=case, **kw)
 
     def one_col(c, col):
-        return {"preset": c["preset"], "columns": [[n_, v_] for n_, v_ in c["columns"] if n_ == col]}
+        return _with_dtype(c, col, {"preset": c["preset"], "columns": [[n_, v_] for n_, v_ in c["columns"] if n_ == col]})
 
     for i, (c, r) in enumerate(zip(cases, res)):
         hist["presets"][c["preset"]] = hist["presets"].get(c["preset"], 0) + 1
@@ -739,7 +781,7 @@ def _check(run, replay):
                     xv = -0.0
                 stats["parse_cells"] += 1
                 if float(iv) != xv and not abs(float(iv) - xv) <= 1e-12 * abs(xv):
-                    viol("parse (get_vals)", {"preset": c["preset"], "columns": [[col, [cell]]]}, impl=iv,
+                    viol("parse (get_vals)", _with_dtype(c, col, {"preset": c["preset"], "columns": [[col, [cell]]]}), impl=iv,
                          model=str(q), clause="numeric parse of the cell (empty string = 0, quotes stripped)")
                 xs.append(xv)
                 xq.append(_DCTX.divide(decimal.Decimal(q.numerator), decimal.Decimal(q.denominator)))
@@ -915,4 +957,11 @@ def _value_case(c, col, cells, xs, rix, tree):
     rows = sorted(keep)
     # a frame of one or two rows is enough to reproduce a value (the column may then be dropped by the keep rule;
     # the harness compares the runner's rendered values in that case)
-    return {"preset": c["preset"], "columns": [[col, [cells[j] for j in rows]]]}
+    return _with_dtype(c, col, {"preset": c["preset"], "columns": [[col, [cells[j] for j in rows]]]})
+
+
+def _with_dtype(c, col, small):
+    """reduced cases keep the storage type of the column"""
+    if col in c.get("dtypes", {}):
+        small["dtypes"] = {col: c["dtypes"][col]}
+    return small
